@@ -86,6 +86,17 @@ class PolyEval:
                     off += s[1]
                     base = base[1]
                     continue
+            if isinstance(base, tuple) and base[0] == 'proj' and base[2] in ('0', '1') and isinstance(base[1], tuple) \
+                    and base[1] and isinstance(base[1][0], str) and base[1][0].split('::')[-1] in ('split_at', 'split_at_mut') \
+                    and len(base[1]) == 3:
+                # xs.split_at(k): .0 = xs[..k], .1 = xs[k..]
+                k = base[1][2]
+                if not (isinstance(k, tuple) and k[0] == 'val'):
+                    raise NotStraight('split_at position is not a constant')
+                if base[2] == '1':
+                    off += k[1]
+                base = base[1][1]
+                continue
             break
         return self.leaf(('proj', base, ('idx', ('val', off + idx))))
 
@@ -107,6 +118,8 @@ class PolyEval:
             i = t[2][1]
             if isinstance(i, tuple) and i[0] == 'val':
                 return self.index(t[1], i[1])
+        if h == 'proj' and isinstance(t[2], tuple) and t[2][0] == 'cidx' and t[2][2] is False:
+            return self.index(t[1], t[2][1])       # slice pattern [x0, x1, ..]: constant index from the front
         r = self.leaf(t)
         if r is None:
             raise NotStraight('unsupported node ' + exprtree.show(t)[:120])
